@@ -182,6 +182,11 @@ func (listener *changeListener) ProcessFeedEvent(event sgbucket.FeedEvent) bool 
 	}
 
 	if event.Opcode != sgbucket.FeedOpMutation {
+		// A deleted user or role document carries nothing to cache, but open sessions waiting on that principal have
+		// to be woken so that they reload it and stop using the access it conferred.
+		if docType := listener.DocumentType(event.Key); docType == DocTypeUser || docType == DocTypeRole {
+			listener.notifyKey(listener.ctx, channels.NewID(string(event.Key), principalDocCollectionIDForChannelID))
+		}
 		// nothing more to handle and this point if the event is not a mutation
 		return true
 	}
